@@ -24,6 +24,7 @@ import re
 import resource
 import shutil
 import subprocess
+import threading
 import sys
 import time
 
@@ -167,7 +168,7 @@ def run_harness(spec, meta):
     digest = hashlib.sha256()
     digest.update(open(out, "rb").read())
     digest.update(res["cbmc_flags"].encode())
-    digest.update(b"parser-v2")
+    digest.update(b"parser-v3")
     key = digest.hexdigest()
     res["formula_sha256"] = key
     cache_f = os.path.join(BUILD, "cache", key + ".json")
@@ -205,6 +206,14 @@ def run_harness(spec, meta):
     res["wall_s"] = time.time() - t0
     res["cbmc_rc"] = rc
     parse_cbmc(jf, res)
+    # keep the disk footprint small: goto binaries are regenerated on every run, solver output
+    # (with traces) is only kept when VERIF_KEEP=1
+    if os.environ.get("VERIF_KEEP") != "1":
+        for f in (out, meta["symtab"], jf):
+            try:
+                os.remove(f)
+            except OSError:
+                pass
     if res["status"] in ("SUCCESSFUL", "FAILED"):
         os.makedirs(os.path.dirname(cache_f), exist_ok=True)
         slim = dict(res)
@@ -297,21 +306,30 @@ def parse_cbmc(jf, res):
     for p in props:
         if p["class"] != "cover" and p["status"] == "FAILURE":
             res["status"] = "FAILED"
+    if "ran out of memory" in text or any(p["status"] not in ("SUCCESS", "FAILURE", "SATISFIED", "UNSATISFIABLE") for p in props):
+        res["status"], res["error"] = "OOM", "solver ran out of memory / properties left undecided"
 
 
 def extract_inputs(trace):
-    """Concrete values of the nondeterministic inputs in a CBMC trace, in
-    execution order (values returned by kani::any_raw*)."""
+    """Concrete values of the nondeterministic inputs in a CBMC trace, in execution order:
+    the values returned by kani::any_raw* (what Kani's own concrete playback uses).
+    Returns a list of {"data": decimal string, "bytes": little-endian byte list}."""
     vals = []
     for s in trace:
         if s.get("stepType") != "assignment":
             continue
         lhs = s.get("lhs", "")
-        fn = (s.get("sourceLocation") or {}).get("function", "")
-        if "any_raw" in fn and ("return_value" in lhs or lhs.startswith("goto_symex$$return_value")):
-            v = s.get("value", {})
-            vals.append(v.get("data", v.get("name", "?")))
-    return vals[:200]
+        if "return_value" not in lhs or "any_raw" not in lhs:
+            continue
+        v = s.get("value", {})
+        b = v.get("binary")
+        w = v.get("width")
+        if b is None or not w:
+            continue
+        n = int(b, 2)
+        nbytes = max(1, int(w) // 8)
+        vals.append({"data": v.get("data", str(n)), "bytes": [(n >> (8 * i)) & 0xFF for i in range(nbytes)]})
+    return vals[:400]
 
 
 # ---------------------------------------------------------------- findings
@@ -350,7 +368,7 @@ def replay(pid, spec, prop):
     the ordinary (non-verification) toolchain against the real /repo code.
     Returns (reproduced: bool|None, path)."""
     crate, name = spec["crate"], spec["name"]
-    top = os.path.join(REPLAYS, pid, name.replace("::", "."))
+    top = os.path.join(REPLAYS, pid, crate + "." + name.replace("::", "."))
     shutil.rmtree(top, ignore_errors=True)
     os.makedirs(os.path.join(top, "harness"), exist_ok=True)
     src = os.path.join(VERIF, "harness", crate)
@@ -359,36 +377,55 @@ def replay(pid, spec, prop):
     # shared sources are include!d through ../../common
     if os.path.isdir(os.path.join(VERIF, "harness", "common")):
         shutil.copytree(os.path.join(VERIF, "harness", "common"), os.path.join(top, "harness", "common"))
-    cmd = ["cargo", "kani", "--exact", "--harness", name, "-Z", "concrete-playback", "--concrete-playback=inplace",
-           "--target-dir", os.path.join(BUILD, "target", "replay-" + crate)]
-    for extra in registry.CRATES.get(crate, {}).get("kani_args", []):
-        cmd.append(extra)
-    if spec.get("profile", "lean") == "lean":
-        cmd += ["-Z", "unstable-options", "--no-memory-safety-checks", "--no-overflow-checks"]
     env = dict(ENV)
     rf = registry.CRATES.get(crate, {}).get("rustflags")
     if rf:
         env["RUSTFLAGS"] = rf
+    inputs = prop.get("trace_inputs") or []
     info = {"property": pid, "harness": name, "crate": crate, "failed_check": prop["desc"],
-            "location": "%s:%s" % (prop.get("file"), prop.get("line")), "inputs_in_trace": prop.get("trace_inputs", [])}
-    try:
-        r = subprocess.run(cmd, cwd=rdir, stdout=subprocess.PIPE, stderr=subprocess.STDOUT, text=True, env=env,
-                           timeout=spec.get("timeout", 600) * 2 + 300)
-        open(os.path.join(rdir, "kani_playback_gen.log"), "w").write(r.stdout)
-    except subprocess.TimeoutExpired:
-        info["replay"] = "playback generation timed out"
-        json.dump(info, open(os.path.join(rdir, "replay.json"), "w"), indent=1)
-        return None, rdir
-    tests = []
-    for root, _d, files in os.walk(os.path.join(rdir, "src")):
-        for f in files:
-            if f.endswith(".rs"):
-                tests += re.findall(r"fn (kani_concrete_playback_\w+)", open(os.path.join(root, f)).read())
+            "location": "%s:%s" % (prop.get("file"), prop.get("line")), "inputs_in_trace": [i.get("data") for i in inputs]}
+    fn_name = name.split("::")[-1]
+    tests, code = [], []
+    if inputs:
+        # unit test in the format of Kani's concrete playback, generated from the trace of the
+        # failing check found by *this* solver run (no second solver run needed)
+        tname = "kani_concrete_playback_%s_%s" % (fn_name, hashlib.sha256(json.dumps(info["inputs_in_trace"]).encode()).hexdigest()[:12])
+        rows = ",\n".join("        // %s\n        vec![%s]" % (i.get("data"), ", ".join(str(b) for b in i["bytes"])) for i in inputs)
+        code.append("#[test]\nfn %s() {\n    let concrete_vals: Vec<Vec<u8>> = vec![\n%s\n    ];\n    kani::concrete_playback_run(concrete_vals, %s);\n}" % (tname, rows, fn_name))
+        tests.append(tname)
+    else:
+        cmd = ["cargo", "kani", "--exact", "--harness", name, "-Z", "concrete-playback", "--concrete-playback=print",
+               "--target-dir", os.path.join(BUILD, "target", "replay-" + crate)]
+        for extra in registry.CRATES.get(crate, {}).get("kani_args", []):
+            cmd.append(extra)
+        if spec.get("profile", "lean") == "lean":
+            cmd += ["-Z", "unstable-options", "--no-memory-safety-checks", "--no-overflow-checks"]
+        try:
+            r = subprocess.run(cmd, cwd=rdir, stdout=subprocess.PIPE, stderr=subprocess.STDOUT, text=True, env=env,
+                               timeout=spec.get("timeout", 600) * 2 + 300)
+            open(os.path.join(rdir, "kani_playback_gen.log"), "w").write(r.stdout)
+        except subprocess.TimeoutExpired:
+            info["replay"] = "playback generation timed out"
+            json.dump(info, open(os.path.join(rdir, "replay.json"), "w"), indent=1)
+            return None, rdir
+        blocks = re.findall(r"(#\[test\]\nfn (kani_concrete_playback_\w+)\(\) \{.*?\n\})", r.stdout, re.S)
+        seen_t = set()
+        for blk, tname in blocks:
+            if tname not in seen_t:
+                seen_t.add(tname)
+                tests.append(tname)
+                code.append(blk)
     info["playback_tests"] = tests
     if not tests:
         info["replay"] = "kani produced no concrete playback test"
         json.dump(info, open(os.path.join(rdir, "replay.json"), "w"), indent=1)
         return None, rdir
+    src_file = os.path.join(rdir, spec.get("src_file") or ("src/" + name.split("::")[0] + ".rs"))
+    if not os.path.exists(src_file):
+        src_file = os.path.join(rdir, "src/lib.rs")
+    with open(src_file, "a") as fo:
+        fo.write("\n// ---- concrete playback tests generated by Kani from the solver's counterexample ----\n")
+        fo.write("\n\n".join(code) + "\n")
     reproduced = False
     outs = []
     for prof in ([],):
@@ -434,7 +471,7 @@ def main():
     t_start = time.time()
     specs = registry.select(pid, tier)
     if only:
-        specs = [s for s in specs if only in s["name"]]
+        specs = [s for s in specs if re.search(only, s["crate"] + "/" + s["name"])]
     if not specs:
         print("no harness registered for %s" % pid)
         return 2
@@ -457,8 +494,27 @@ def main():
             break
     results = []
     if not build_err:
+        # memory-aware scheduling: every job reserves `mem_reserve` GB (default 4) of a global
+        # budget; the hard per-process limit (RLIMIT_AS) is `mem_gb`
+        budget = {"free": float(os.environ.get("VERIF_MEM_BUDGET_GB", "54"))}
+        cond = threading.Condition()
+
+        def guarded(s, meta):
+            need = min(float(s.get("mem_reserve", 4)), budget["free"] if budget["free"] > 0 else 4)
+            need = float(s.get("mem_reserve", 4))
+            with cond:
+                while budget["free"] < need and budget["free"] < float(os.environ.get("VERIF_MEM_BUDGET_GB", "54")):
+                    cond.wait()
+                budget["free"] -= need
+            try:
+                return run_harness(s, meta)
+            finally:
+                with cond:
+                    budget["free"] += need
+                    cond.notify_all()
+
         with cf.ThreadPoolExecutor(max_workers=JOBS) as ex:
-            futs = {ex.submit(run_harness, s, metas[(s["crate"], s["name"])]): s for s in specs}
+            futs = {ex.submit(guarded, s, metas[(s["crate"], s["name"])]): s for s in specs}
             for f in cf.as_completed(futs):
                 s = futs[f]
                 try:
@@ -466,10 +522,10 @@ def main():
                 except Exception as e:  # noqa
                     r = {"harness": s["name"], "crate": s["crate"], "status": "ERROR", "error": repr(e), "props": []}
                 results.append(r)
-                log("  [%s] %-50s %-10s %6.1fs%s" % (pid, s["name"], r["status"], r.get("wall_s", 0),
+                log("  [%s] %-50s %-10s %6.1fs%s" % (pid, s["crate"] + "/" + s["name"], r["status"], r.get("wall_s", 0),
                                                       " (cached)" if r.get("cached") else ""))
     known, _fixed = load_known()
-    spec_by_name = {s["name"]: s for s in specs}
+    spec_by_name = {(s["crate"], s["name"]): s for s in specs}
     violations, known_hits, inconclusive, unreachable, other_fail = [], [], [], [], []
     obligations = discharged = 0
     covers_sat = covers_total = 0
@@ -479,8 +535,9 @@ def main():
     samples = []
     if build_err:
         inconclusive.append("build/codegen failed: " + build_err[:400])
-    for r in sorted(results, key=lambda r: r["harness"]):
-        s = spec_by_name[r["harness"]]
+    for r in sorted(results, key=lambda r: (r["crate"], r["harness"])):
+        s = spec_by_name[(r["crate"], r["harness"])]
+        r["harness"] = r["crate"] + "/" + r["harness"]
         primary = s["props"][0]
         st = r.get("stats", {})
         vccs += st.get("vccs", 0)
@@ -545,7 +602,7 @@ def main():
             continue
         seen.add(keyv)
         if os.environ.get("VERIF_NO_REPLAY") == "1":
-            rdir = os.path.join(REPLAYS, pid, r["harness"].replace("::", "."))
+            rdir = os.path.join(REPLAYS, pid, r["harness"].replace("::", ".").replace("/", "."))
             os.makedirs(rdir, exist_ok=True)
             json.dump({"property": pid, "harness": r["harness"], "failed_check": p["desc"], "inputs_in_trace": p.get("trace_inputs", [])},
                       open(os.path.join(rdir, "replay.json"), "w"), indent=1)
